@@ -133,3 +133,41 @@ theorem stdMerge_fragments (t : UInt8) (acc : Bytes) (v : Bytes) (last : Nat)
       simp [List.length_take]; omega
 
 end Hc.Tlv8
+
+namespace Hc.Tlv8
+/-- every item of a parsed container cost at least two bytes of input (tag, length) plus its value -/
+theorem parse_cost : ∀ (n : Nat) (bs : Bytes) (is : Container), bs.length ≤ n → parse bs = .ok is →
+    2 * is.length + (is.map (fun i => i.val.length)).sum ≤ bs.length := by
+  intro n
+  induction n with
+  | zero =>
+    intro bs is hl h
+    have : bs = [] := List.eq_nil_of_length_eq_zero (Nat.le_zero.mp hl)
+    subst this
+    simp [parse] at h
+    subst h
+    simp
+  | succ n ih =>
+    intro bs is hl h
+    match bs, h with
+    | [], h => simp [parse] at h; subst h; simp
+    | [_], h => simp [parse] at h
+    | t :: m :: rest, h =>
+      unfold parse at h
+      by_cases hm : m.toNat ≤ rest.length
+      · simp only [hm, if_true] at h
+        cases hp : parse (rest.drop m.toNat) with
+        | error e => simp [hp] at h
+        | ok js =>
+          simp [hp] at h
+          subst h
+          have hlen : (rest.drop m.toNat).length ≤ n := by
+            simp only [List.length_cons] at hl
+            simp [List.length_drop]; omega
+          have := ih (rest.drop m.toNat) js hlen hp
+          simp only [List.length_cons, List.map_cons, List.sum_cons, List.length_take, List.length_drop] at this ⊢
+          have hmin : min m.toNat rest.length = m.toNat := Nat.min_eq_left hm
+          omega
+      · simp only [hm, if_false] at h
+        split at h <;> simp at h
+end Hc.Tlv8
